@@ -9,7 +9,8 @@
 (* ev = "lib"   (C06) one library through the iterator, write_tags on every molecule, then the   *)
 (*              tagged reads through the iterator + write_tags again (history):                  *)
 (*   pooling, sched (-1 = None), rounds: [ [ {ov, at, recs:[{id, dup:[bool per read], rc:[..],   *)
-(*              af:[..], tf:[..]}]} per molecule ] per round ]                                   *)
+(*              af:[..], tf:[..]}]} per molecule ] per round ];  optional reuse: {sched, cache,   *)
+(*              raised, fresh: round, reused: round} (re-use history, see ReuseVerdict)          *)
 (* ev = "sched" (C07) one sorted fragment sequence under every schedule / pooling method:        *)
 (*   runs: [{sched, pooling, raised, emits:[{at, ids}], reuse?}],  model: groups the design model expects  *)
 (*              for runs[1] when the sequence is a TLC scenario ([] otherwise)                    *)
@@ -67,7 +68,7 @@ RoundVerdict(e, round) ==
        ELSE IF e.sched = -1 /\ SumSeqF(round, LAMBDA m : MolRecs(m)[1].tf - Len(m.recs)) # Cardinality(ovs) THEN "Inv_C06_Counts_TF_overflow"
        ELSE "ok"
 
-LibVerdict(e) ==
+RoundsVerdict(e) ==
     LET v1 == RoundVerdict(e, e.rounds[1]) IN
     IF v1 # "ok" THEN v1
     ELSE IF Len(e.rounds) = 1 THEN "ok"
@@ -79,6 +80,30 @@ LibVerdict(e) ==
             ELSE IF g1 # g2 THEN "Inv_C06_Idempotent_partition"
             ELSE IF \E g \in g1 : Bag(e.rounds[1], g) # Bag(e.rounds[2], g) THEN "Inv_C06_Idempotent_flags"
             ELSE "ok"
+
+(* history: one MoleculeIterator object, first iteration abandoned after the first molecule it handed out, then     *)
+(* iterated again (e.reuse.reused) - partition, duplicate flags and af/TF/RC must equal those of a fresh iterator   *)
+(* with the same settings (e.reuse.fresh); only schedule-independent clauses are judged absolutely                 *)
+TagSet(round, g) == LET k == CHOOSE k \in DOMAIN round : SeqSet(MolEmits(round)[k].ids) = g
+                    IN { [id |-> round[k].recs[j].id, t |-> FragRec(round[k].recs[j])] : j \in DOMAIN round[k].recs }
+ReuseVerdict(e) ==
+    LET F == e.frags
+        fr == e.reuse.fresh
+        ru == e.reuse.reused
+        emF == MolEmits(fr)
+        emR == MolEmits(ru)
+    IN IF e.reuse.raised # "" THEN "Inv_C06_Reuse_raised_" \o e.reuse.raised
+       ELSE IF \E k \in DOMAIN emR : ~IdsOk(F, emR[k].ids) \/ emR[k].ids = <<>> THEN "malformed_ids"
+       ELSE IF ~ExactlyOnce(F, emR) THEN "Inv_C06_Reuse_Partition"
+       ELSE IF \E k \in DOMAIN ru : ~OnePrimary(MolRecs(ru[k])) THEN "Inv_C06_Reuse_OnePrimary"
+       ELSE IF \E k \in DOMAIN ru : LET rs == MolRecs(ru[k]) IN ~(rs[1].tf >= Len(rs) /\ Counts(rs, rs[1].tf - Len(rs))) THEN "Inv_C06_Reuse_Counts"
+       ELSE IF GroupsOf(emR) # GroupsOf(emF) THEN "Inv_C06_Reuse_partition_differs_from_fresh"
+       ELSE IF \E g \in GroupsOf(emR) : TagSet(ru, g) # TagSet(fr, g) THEN "Inv_C06_Reuse_tags_differ_from_fresh"
+       ELSE "ok"
+
+LibVerdict(e) ==
+    LET v == RoundsVerdict(e) IN
+    IF v # "ok" THEN v ELSE IF Has(e, "reuse") THEN ReuseVerdict(e) ELSE "ok"
 
 ---------------------------------------------------------------------------------------------------
 (* C07 *)
@@ -98,8 +123,10 @@ RunVerdict(e, k) ==
     ELSE IF ~InRegion(e) THEN "ok"
     ELSE IF ~NoPremature(F, r.emits, e.cap) THEN "Inv_C07_NoPremature"
     ELSE IF HasRun(e, -1, r.pooling) /\ GroupsOf(r.emits) # GroupsOf(e.runs[RunOf(e, -1, r.pooling)].emits) THEN "Inv_C07_SamePartition"
-    ELSE IF ExactApplies(e) /\ e.cap = 0 /\ HasRun(e, -1, 1 - r.pooling)
-            /\ GroupsOf(r.emits) # GroupsOf(e.runs[RunOf(e, -1, 1 - r.pooling)].emits) THEN "Inv_C07_PoolingAgnostic"
+    ELSE IF e.hd = 0 /\ e.cap = 0 /\ (e.radius = 0 \/ e.kind = "nla") /\ HasRun(e, -1, 1 - r.pooling)
+            /\ GroupsOf(r.emits) # GroupsOf(e.runs[RunOf(e, -1, 1 - r.pooling)].emits)
+         THEN (IF e.kind = "plain" /\ InteriorMatch(F, Valid(F)) THEN "Inv_C07_PoolingAgnostic_interior_member_match"
+               ELSE "Inv_C07_PoolingAgnostic")
     ELSE "ok"
 
 SchedVerdict(e) ==
